@@ -6,14 +6,31 @@
 #[cfg(kani)]
 extern crate alloc;
 
+pub use ::precis_profiles;
+
 #[macro_use]
 pub mod sup {
     include!(concat!(env!("PRECIS_VERIF_DIR"), "/kani/support.rs"));
 }
 include!(concat!(env!("PRECIS_VERIF_DIR"), "/build/gen/oracle.rs"));
+include!(concat!(env!("PRECIS_VERIF_DIR"), "/build/gen/known.rs"));
+#[allow(dead_code)]
+pub mod norm_model {
+    include!(concat!(env!("PRECIS_VERIF_DIR"), "/kani/norm_model.rs"));
+}
 #[allow(dead_code)]
 pub mod stubs {
     include!(concat!(env!("PRECIS_VERIF_DIR"), "/kani/stubs.rs"));
+    include!(concat!(env!("PRECIS_VERIF_DIR"), "/kani/stubs_pipe.rs"));
+}
+pub mod pipe {
+    include!(concat!(env!("PRECIS_VERIF_DIR"), "/kani/bodies/pipe.rs"));
+}
+pub mod c01 {
+    include!(concat!(env!("PRECIS_VERIF_DIR"), "/kani/bodies/c01.rs"));
+}
+pub mod c08 {
+    include!(concat!(env!("PRECIS_VERIF_DIR"), "/kani/bodies/c08.rs"));
 }
 pub mod c02 {
     include!(concat!(env!("PRECIS_VERIF_DIR"), "/kani/bodies/c02.rs"));
